@@ -29,6 +29,8 @@ Definition shape_ok (s : state) : bool :=
 Definition nz_is_transport (z : nzstate) : bool := match z with NzTransport => true | _ => false end.
 Definition nz_is_init (z : nzstate) : bool := match z with NzInit => true | _ => false end.
 
+(* the control layer's clauses come last: enum_state leaves its booleans symbolic, and the clauses over the
+   enumerated fields must reduce (and prune) before a symbolic one blocks the evaluation of the conjunction *)
 Definition aux_ok (s : state) : bool :=
   (negb (recon s) || (ns_eqb (ns s) NsDisconnected && nonempty (dq s))) &&
   (match ns s with
@@ -42,17 +44,20 @@ Definition aux_ok (s : state) : bool :=
    | [] => true
    | [x] => pth s && N.eqb (x + 1) (nping s) && memN x (reg s)
    | _ => false
-   end).
+   end) &&
+  (negb (rb s) || (ns_eqb (ns s) NsDisconnected && nonempty (dq s) && negb (recon s) && negb (um s)
+                   && negb (ud s))) &&
+  (negb (kp s) || negb (um s)).
 
 Definition inv (s : state) : Prop := shape_ok s = true /\ aux_ok s = true /\ orphans s = 0%N.
 
-Lemma inv_init : inv init.
+Lemma inv_init c : inv (init c).
 Proof. repeat split. Qed.
 
 Ltac kill := try discriminate; try reflexivity; try congruence.
 
 Ltac destr_state s :=
-  destruct s as [n cn d o r z rc pt q rg np dqq].
+  destruct s as [n cn d o r z rc pt q rg np dqq pv u_m u_d r_b k_p].
 
 (* case analysis on everything finite; lists by shape *)
 Ltac split_state :=
@@ -98,7 +103,7 @@ Ltac norm_hyp H :=
 Ltac enum_state Hs Ha :=
   match goal with
   | s : state |- _ =>
-    destruct s as [n cn d o r z rc pt q rg np dqq];
+    destruct s as [n cn d o r z rc pt q rg np dqq pv u_m u_d r_b k_p];
     unfold shape_ok in Hs; cbn in Hs;
     destruct n, cn, d; try discriminate Hs;
     destruct dqq as [|r0 [|r1 dqq]]; try discriminate Hs; clear Hs;
@@ -107,8 +112,36 @@ Ltac enum_state Hs Ha :=
     destruct q as [|x [|y q]]; try discriminate Ha
   end.
 
+(* the control layer's booleans (psv, um, ud, rb, kp) stay symbolic in enum_state; whatever is left open after
+   the case analysis of the goal follows from a hypothesis once the booleans it mentions are split *)
+Ltac close_hyps :=
+  try solve [repeat match goal with
+                    | H : context [if ?b then _ else _] |- _ =>
+                      match b with
+                      | context [if _ then _ else _] => fail 1
+                      | _ => destruct b eqn:?
+                      end
+                    end;
+             first [exfalso; discriminate
+                   | match goal with H : _ |- _ => exact H end
+                   | exfalso;
+                     match goal with
+                     | H : memN ?x (removeN ?i ?l) = false |- _ =>
+                       rewrite memN_removeN in H; [discriminate H | assumption | assumption]
+                     | H : memN ?x (?l ++ [?x]) = false |- _ =>
+                       rewrite memN_app_last in H; discriminate H
+                     end]].
+
+(* the same with the control layer's booleans split as well (for statements about one event) *)
+Ltac enum_state_full Hs Ha :=
+  enum_state Hs Ha;
+  match goal with
+  | u_m : bool, u_d : bool, r_b : bool, k_p : bool |- _ =>
+    destruct r_b, k_p, u_m, u_d; try discriminate Ha
+  end.
+
 Ltac finish_inv :=
-  unfold inv; red_all; rewrite ?memN_nil, ?memN_single, ?N.eqb_refl; split_ifs; kill;
+  unfold inv; red_all; rewrite ?memN_nil, ?memN_single, ?N.eqb_refl, ?memN_app_last; split_ifs; kill;
   repeat split; kill; use_bools; subst;
   rewrite ?N.eqb_refl, ?memN_app_last; kill;
   try (rewrite memN_removeN; kill).
@@ -116,42 +149,48 @@ Ltac finish_inv :=
 Lemma step_inv c s e : inv s -> enabled c s e = true -> inv (fst (step c s e)).
 Proof.
   intros [Hs [Ha Ho]] He.
-  destruct c as [crec cpas cpng cfc cfd].
+  destruct c as [crec cpas cpng cfc cfd cuns].
   destruct e.
   - (* EConnectReq *)
     enum_state Hs Ha; cbn in Ho; subst o; red_in He; try discriminate He;
-    destruct cfc; red_in He; try discriminate He; compute_step; finish_inv.
+    destruct cfc; red_in He; try discriminate He; compute_step; finish_inv; close_hyps.
   - enum_state Hs Ha; cbn in Ho; subst o; red_in He; try discriminate He;
-    destruct cfc; red_in He; try discriminate He; compute_step; finish_inv.
+    destruct cfc; red_in He; try discriminate He; compute_step; finish_inv; close_hyps.
   - enum_state Hs Ha; cbn in Ho; subst o; red_in He; try discriminate He;
-    destruct cfd; compute_step; finish_inv.
+    destruct cfd; compute_step; finish_inv; close_hyps.
   - enum_state Hs Ha; cbn in Ho; subst o; red_in He; try discriminate He;
-    compute_step; finish_inv.
+    compute_step; finish_inv; close_hyps.
   - enum_state Hs Ha; cbn in Ho; subst o; red_in He; try discriminate He;
-    compute_step; finish_inv.
+    compute_step; finish_inv; close_hyps.
   - enum_state Hs Ha; cbn in Ho; subst o; red_in He; try discriminate He;
-    compute_step; finish_inv.
+    compute_step; finish_inv; close_hyps.
   - enum_state Hs Ha; cbn in Ho; subst o; red_in He; try discriminate He;
-    destruct cpng; compute_step; finish_inv.
+    destruct cpng; compute_step; finish_inv; close_hyps.
   - enum_state Hs Ha; cbn in Ho; subst o; red_in He; try discriminate He;
-    destruct cfd; compute_step; finish_inv.
+    destruct cfd; compute_step; finish_inv; close_hyps.
   - enum_state Hs Ha; cbn in Ho; subst o; red_in He; try discriminate He;
-    destruct cfd, crec, k; compute_step; finish_inv.
+    destruct cfd, crec, k; compute_step; finish_inv; close_hyps.
   - enum_state Hs Ha; cbn in Ho; subst o; red_in He; try discriminate He;
-    compute_step; finish_inv.
+    compute_step; finish_inv; close_hyps.
+  - (* EKeysResult *)
+    enum_state Hs Ha; cbn in Ho; subst o; red_in He; try discriminate He;
+    destruct cfd; compute_step; finish_inv; close_hyps.
+  - (* EKeysError *)
+    enum_state Hs Ha; cbn in Ho; subst o; red_in He; try discriminate He;
+    compute_step; finish_inv; close_hyps.
   - enum_state Hs Ha; cbn in Ho; subst o; red_in He; try discriminate He;
-    destruct cfd; red_in He; try discriminate He; compute_step; finish_inv.
+    destruct cfd; red_in He; try discriminate He; compute_step; finish_inv; close_hyps.
   - enum_state Hs Ha; cbn in Ho; subst o; red_in He; try discriminate He;
-    compute_step; finish_inv.
+    compute_step; finish_inv; close_hyps.
   - enum_state Hs Ha; cbn in Ho; subst o; red_in He; try discriminate He;
-    destruct cfc; compute_step; finish_inv.
+    destruct cfc; compute_step; finish_inv; close_hyps.
 Qed.
 
 (* generic enumeration of (event, reachable state shape) with the step computed once *)
 Ltac enum_step c s e Hinv He :=
   let Hs := fresh "Hs" in let Ha := fresh "Ha" in let Ho := fresh "Ho" in
   destruct Hinv as [Hs [Ha Ho]];
-  destruct c as [crec cpas cpng cfc cfd];
+  destruct c as [crec cpas cpng cfc cfd cuns];
   destruct e; enum_state Hs Ha; cbn in Ho; subst; red_in He; try discriminate He.
 
 Ltac prune He := try (red_in He; norm_hyp He; discriminate He).
@@ -188,7 +227,7 @@ Proof.
   apply (exec_ind_inv c (fun _ _ s2 _ => inv s2)); auto.
 Qed.
 
-Lemma reach_inv c h s tr : exec c init h = Some (s, tr) -> inv s.
+Lemma reach_inv c h s tr : exec c (init c) h = Some (s, tr) -> inv s.
 Proof. apply exec_inv, inv_init. Qed.
 
 (* ---------- counting ---------- *)
@@ -208,11 +247,11 @@ Definition step_counts_ok (e : event) (o : list obs) : bool :=
   forallb (fun p => Nat.eqb (countb (is_authed_at p) o) (b2n (ev_success e))) [0; 1; 2]%N &&
   Nat.eqb (countb is_app_success o) (b2n (ev_success e)) &&
   Nat.eqb (countb is_down_write o) 0 &&
-  Nat.eqb (countb is_raise o) 0.
+  Nat.eqb (countb is_raise o) (b2n (ev_keys_error e)).
 
 Ltac finish_bool He :=
   compute_step; red_all; rewrite ?memN_nil, ?memN_single, ?N.eqb_refl;
-  split_ifs; kill; prune He.
+  split_ifs; kill; prune He; close_hyps.
 
 Lemma step_counts c s e : inv s -> enabled c s e = true -> step_counts_ok e (snd (step c s e)) = true.
 Proof.
